@@ -78,6 +78,10 @@ def abstract(vs, ls):
     return AbstractGraph.from_real(vs, ls, C.kind_of)
 
 
+class FilterMisuse(Exception):
+    """The library called a user filter in a way its documentation does not allow."""
+
+
 def make_filter(spec):
     """
     spec: None | {"ft": "pair"|"edge", "mask": int}
@@ -109,7 +113,10 @@ def real_filter1(f, li, falsy=False, defaulted=False):
         return None
     if defaulted:
         # a legal one-argument filter that happens to have a second, defaulted positional parameter
-        fn = lambda e, shift=0: f(li[id(e)] + shift)
+        def fn(e, extra=None):
+            if extra is not None:
+                raise FilterMisuse("a one-argument find_links filter was called with a second argument")
+            return f(li[id(e)])
     else:
         fn = lambda e: f(li[id(e)])
     if falsy:
